@@ -253,7 +253,7 @@ def run_codec(params, known):
     u16 = [0, 1, 255, 256, 65535]
     u64 = [0, 1, 255, 256, 65535, 65536, 2 ** 32 - 1, 2 ** 32, 2 ** 64 - 1]
     datas = [b'', b'\x00', b'abcde', bytes(range(256)), b'\xff' * 300]
-    nodeids = ['', 'x', 'dtn://n/', 'dtn://' + 'n' * 300 + '/']
+    nodeids = ['', 'x', 'dtn://n/', 'dtn://' + 'n' * 300 + '/', 'dtn://n\u00f6de/', '\u20ac' * 100]
 
     def impl_ext(items, cls):
         out = []
